@@ -272,6 +272,40 @@ def make_cases(run, scratch):
             d = scratch.unpack(tb)
             cases.append(("linux:%s|%s" % (os.path.basename(tb), ";".join(cfg)),
                           ["env HWLOC_COMPONENTS linux,stop", "env HWLOC_THISSYSTEM 1", "env HWLOC_CPUID_PATH"] + cfg + ["src fsroot " + d], "restrict-to-binding"))
+    # x86 CPUID dumps restricted to the binding (PUs outside of it are never looked at: /repo 7faf46d, summarize() read the
+    # unknown-level ids of such PUs), pristine and with the outermost level of the extended-topology leaves (0xb, 0x1f,
+    # 0x80000026) rewritten to a type hwloc does not know (what a newer processor reports)
+    def unknown_level_copy(src, name):
+        dst = os.path.join(scratch.dir, name)
+        if os.path.isdir(dst):
+            return dst
+        shutil.copytree(src, dst, symlinks=True)
+        for fn in os.listdir(dst):
+            if not re.fullmatch(r"pu\d+", fn):
+                continue
+            lines = open(os.path.join(dst, fn)).read().split("\n")
+            last = {}
+            for i, l in enumerate(lines):
+                m = re.match(r"^([0-9a-f]+) (b|1f|80000026) ([0-9a-f]+) ([0-9a-f]+) ([0-9a-f]+) => ([0-9a-f]+) ([0-9a-f]+) ([0-9a-f]+) ([0-9a-f]+)$", l)
+                if m and int(m.group(7), 16) & 0xffff and int(m.group(8), 16) & 0xff00:
+                    last[m.group(2)] = i
+            for leaf, i in last.items():
+                f = lines[i].split(" ")
+                f[8] = "%x" % ((int(f[8], 16) & ~0xff00) | 0x900)
+                lines[i] = " ".join(f)
+            open(os.path.join(dst, fn), "w").write("\n".join(lines))
+        return dst
+    x86_all = S.snapshots("x86")
+    rbx = [t for t in x86_all if any(k in os.path.basename(t) for k in ("CPUID.1F", "CPUID.1A", "Zen4", "SapphireRapids", "RaptorLake", "Skylake"))] or x86_all[:3]
+    for tb in (rbx if not quick else rbx[:4]):
+        src = scratch.unpack(tb)
+        base = os.path.basename(tb)[:-8]
+        for variant, d in (("", src), ("+unknown-level", unknown_level_copy(src, "x86unk-" + base))):
+            for b in (bind_choices if not quick else bind_choices[:2]):
+                for fl in (2 | 16, 2):
+                    cfg = ["bindself " + b, "flags %d" % fl]
+                    cases.append(("x86:%s%s|%s" % (base, variant, ";".join(cfg)),
+                                  ["env HWLOC_COMPONENTS x86,stop", "env HWLOC_THISSYSTEM", "env HWLOC_FSROOT"] + cfg + ["src cpuid " + d], "restrict-to-binding"))
     # CPU-less NUMA nodes behind a memory-side cache (/repo 6bc5bae, memory-parent search of Topo/MemAttach.v): copies of the
     # memorysidecaches snapshot in which one or two nodes that have a memory_side_cache directory lose their cpumap bits
     for tb in S.snapshots("linux"):
